@@ -980,3 +980,49 @@ def k13_witness():
     fill = e2e.Linear((0, 0), (1, 0), stops, "objectBoundingBox", None, "pad")
     g = e2e.GlyphSpec((0, 0, 100, 100), [e2e.Shape([(-100, 10), (100, 10), (100, 45), (-100, 45)], fill, 1.0)], (0x1F600,))
     return {"fmt": "glyf_colr_1", "glyphs": [g], "tolerances": [0.1]}
+
+
+# ---- C14: a bitmap build may be refused only for what the format cannot represent ----
+
+
+def bitmap_rejection_is_legitimate(glyphs, overrides):
+    """may the build of this bitmap set end in an error?  Yes when bitmaps that have to share
+    a strike differ in pixel height (one strike has one ppem), or -- CBDT only -- when a value
+    does not fit the format's 8-bit fields (image size, pixel advance, ppem, line metrics,
+    BearingY beyond the one-pixel nudge)"""
+    from PIL import Image
+    from nanoemoji.glyph import glyph_name
+
+    o = dict(overrides)
+    pngs = o.pop("_pngs")
+    cfg = e2e.default_config(**o)
+    F = cfg.ascender - cfg.descender
+    sizes = [Image.open(io.BytesIO(p)).size for p in pngs]
+    names = [getattr(g, "name", None) or glyph_name(g.codepoints) for g in glyphs]
+    if cfg.color_format == "sbix":
+        return len({h for _, h in sizes}) > 1
+    # CBDT: .notdef (glyph 0) is a run of its own, the other colour glyphs (2, 3, ...) another
+    runs = [[s for s, n in zip(sizes, names) if n == ".notdef"], [s for s, n in zip(sizes, names) if n != ".notdef"]]
+    for run in runs:
+        if len({h for _, h in run}) > 1:
+            return True
+    for w, h in sizes:
+        ppem = round(cfg.upem * h / F)
+        adv_px = round(max(cfg.width, w * F / h) * h / F)
+        line_height = round(F * ppem / cfg.upem)
+        asc = round(cfg.ascender * ppem / cfg.upem)
+        y = round(cfg.ascender * ppem / cfg.upem - 0.5 * (line_height - h))
+        if max(w, h) > 255 or adv_px > 255 or not 0 < ppem <= 255 or not -128 <= asc <= 127 or not -128 <= -(line_height - asc) <= 127 or not -129 <= y <= 128 or cfg.bitmap_resolution > 255:
+            return True
+    return False
+
+
+def build_bitmaps(glyphs, overrides):
+    import struct
+
+    try:
+        return build_any(glyphs, overrides)
+    except (ValueError, AssertionError, struct.error, StopIteration) as e:
+        if bitmap_rejection_is_legitimate(glyphs, overrides):
+            return {"rejected": repr(e)[:200]}
+        raise
